@@ -14,6 +14,7 @@ Variable c : p_cfg.
 Variable d : nat.
 Hypothesis G1 : forall x a, x <> d -> In a (pc_rs (p_get c x) ++ pc_ws (p_get c x) ++ pc_cs (p_get c x)) -> p_act_target a <> d.
 Hypothesis G2d : pc_doc (p_get c d) = false.
+Hypothesis G5 : p_refused c d = false.
 Local Notation conn := (pc_conn (p_get c d)).
 Local Notation sock := (p_is_sock c d).
 
@@ -532,7 +533,7 @@ Proof.
   assert (EF : p_ep_flags c s (ep_obj (st_ep s) id0) d =
                Build_p_flags (a_r a && (if sock then l_has_data a0 || a_closed a else l_has_data a0))
                              (a_w a && sock) (a_closed a)).
-  { unfold p_ep_flags, p_readable. rewrite T4, T5, HD, (re_closed _ _ R).
+  { unfold p_ep_flags, p_readable. rewrite G5, T4, T5, HD, (re_closed _ _ R).
     destruct sock eqn:SK; auto; destruct (a_w a) eqn:AW; auto. }
   rewrite EF. unfold p_ep_check, l_poll. fold a0. cbn [f_hup f_in f_out].
   change (a_w a0) with (a_w a). change (a_closed a0) with (a_closed a) in *.
@@ -852,7 +853,7 @@ Lemma p_flags_of s a id : p_re s a -> ep_map (st_ep s) d = Some id ->
 Proof.
   intros R M. pose proof (re_tab _ _ R) as T. unfold p_tab in T. rewrite M in T.
   destruct T as (_ & _ & _ & T4 & T5 & _).
-  unfold p_ep_flags, p_readable, l_flags, p_has_data, l_has_data. rewrite T4, T5, (re_pend _ _ R), (re_closed _ _ R).
+  unfold p_ep_flags, p_readable, l_flags, p_has_data, l_has_data. rewrite G5, T4, T5, (re_pend _ _ R), (re_closed _ _ R).
   destruct sock eqn:SK; auto; destruct (a_w a) eqn:AW; auto.
 Qed.
 
